@@ -182,6 +182,17 @@ def run_lists(ctx, cases):
         done.append((tr.feed_calls, float(gl_.kcals), float(fl_.kcals)))
     # the model is given the requirement the real objects computed (reset_NE_balance), everything else as generated
     lines = []
+    kept_cases, kept_done = [], []
+    for cs, dn in zip(cases, done):
+        if len(dn[0]) != len(cs[0]):
+            # the real loop did not serve every species of the list: nothing to line up with the model
+            ctx.disagree("feed_animals:species-served", {"helper": "feed_animals", "reqs": cs[0], "grass": cs[1], "feed": cs[2]},
+                         "%d of %d species served" % (len(dn[0]), len(cs[0])), "every species is served in list order")
+            ctx.count("lists:not-all-served")
+        else:
+            kept_cases.append(cs)
+            kept_done.append(dn)
+    cases, done = kept_cases, kept_done
     for (reqs, g, f, mode), (calls, _, _) in zip(cases, done):
         lines.append("herd.feedAll %d %s %s %s" % (len(reqs), " ".join("%s %s %s %s %d" % (f2b(a), f2b(b), f2b(c["need"]), f2b(p), 1 if r else 0)
                                                                        for (a, b, nd, p, r), c in zip(reqs, calls)), f2b(g), f2b(f)))
